@@ -4760,6 +4760,10 @@ class PyCdlib:
                 abs_offset = abs_extent_loc * self.logical_block_size + offset
             elif isinstance(record, udfmod.UDFFileEntry):
                 abs_offset = record.extent_location() * self.logical_block_size
+            elif isinstance(record, eltorito.EltoritoEntry):
+                # A boot file; the boot catalog records where it starts and
+                # how much of it to load, neither of which changes here.
+                continue
             else:
                 # This should never happen
                 raise pycdlibexception.PyCdlibInternalError('Invalid record type')
